@@ -47,6 +47,9 @@ def dispatch_replay(chk, rp):
         MM.replay_file(chk, rp)
     elif kind == "field":
         FF.replay_file(chk, rp)
+    elif kind == "testtrace":
+        from . import testtrace as TT
+        TT.replay_file(chk, rp)
     elif kind == "load_then_classify":
         from . import load_checks as LC
         LC.replay_load_then_classify(chk, rp)
@@ -153,6 +156,10 @@ def c04(chk, tier):
     r = tlc.run("OnlineFlags", "SPECIFICATION Spec\n" + "".join("INVARIANT %s\n" % i for i in invs) + "CHECK_DEADLOCK FALSE\n",
                 workers=1, invariants=invs)
     chk.add_tlc(r, "OnlineFlags (all lengths)")
+    if not q:
+        # the repository's own tests: the classified datasets they leave behind, judged like the field sweep
+        from . import testtrace as TT
+        TT.judge(chk, ("C04",), k_expr="test_classify or test_set_curvature", parts=("classify",))
     if r.get("violated"):
         chk.violation("OnlineFlags.tla: the online machine differs from the streaming definition: " + r["error"][:400], {"kind": "tlc"})
     CC.code_to_spec(chk, 300 if q else 3000, PRES, prefixes=("C04",))
